@@ -411,3 +411,17 @@ fn test_alias_ty_bound_in_impl_where_clauses() {
         }
     );
 }
+
+#[test]
+fn test_lang_assoc_ty() {
+    // Test we print the `#[lang]` attribute of associated types.
+    reparse_test!(
+        program {
+            #[lang(async_fn_once)]
+            trait AsyncFnOnce<Args> {
+                #[lang(async_fn_once_output)]
+                type Output;
+            }
+        }
+    );
+}
